@@ -621,7 +621,7 @@ func specPreorderAll(roots []*Node, i int) []*Node {
 //@   modifies Node.brnch.value, Node.brnch.path, cbTrace, cbFailed, cbLastErr, counter.n
 //@   ensures nilnode [C03]: root == nil ==> result == ErrNilNode && cbTrace == old(cbTrace)
 //@   ensures notroot [C03]: root != nil && root.hierarchy != 1 ==> result == ErrNotRoot && cbTrace == old(cbTrace)
-//@   ensures walk [C03,C05,C13]: root != nil && root.hierarchy == 1 ==> (exists c *config :: {c.massive} fresh(c) && (!c.massive ==> (result == nil ==> !cbFailed && cbTrace == old(cbTrace) ++ specPreorder(root)) && (cbFailed ==> result == cbLastErr && result != nil) && (c.encode == encodeDefault && (result == nil || cbFailed) ==> grown(c.lastNodeFormat, c.intermedialNodeFormat, root))))
+//@   ensures walk [C03,C05,C13,C12]: root != nil && root.hierarchy == 1 ==> (exists c *config :: {c.massive} fresh(c) && (!c.massive ==> (result == nil ==> !cbFailed && cbTrace == old(cbTrace) ++ specPreorder(root)) && (cbFailed ==> result == cbLastErr && result != nil) && (c.encode == encodeDefault && (result == nil || cbFailed) ==> grown(c.lastNodeFormat, c.intermedialNodeFormat, root))))
 //@ applies fromRootWalk to gtree.WalkFromRoot, gtree.WalkProgrammably
 
 // ---------------------------------------------------------------------------------------------
@@ -648,7 +648,7 @@ func specPreorderAll(roots []*Node, i int) []*Node {
 //@   ensures reject [C02]: !md.allSpace(row) && len(row) > 0 && row[0] != '#' && !md.specItemShape(old(ng.parser.sep), old(ng.parser.spaces), row) ==> result1 != nil && isType(result1, inputFormatError) && as(result1, inputFormatError).row == row
 //@   ensures empty [C02]: !md.allSpace(row) && len(row) > 0 && ((row[0] == '#' && md.specHeadingText(row) == "") || (row[0] != '#' && md.specItemShape(old(ng.parser.sep), old(ng.parser.spaces), row) && md.specItemText(row) == "")) ==> result1 == errEmptyText
 
-//@ pred genOK(rg *rootGeneratorSimple): rg != nil && rg.counter != nil && rg.scanner != nil && rg.nodeGenerator != nil && rg.nodeGenerator.parser != nil && md.parserOK(rg.nodeGenerator.parser) && 0 <= rg.scanner.pos && rg.scanner.pos <= len(rg.scanner.lines)
+//@ pred genOK(rg *rootGeneratorSimple): rg != nil && rg.counter != nil && rg.scanner != nil && rg.nodeGenerator != nil && rg.nodeGenerator.parser != nil && md.parserOK(rg.nodeGenerator.parser) && 0 <= rg.scanner.pos && rg.scanner.pos <= len(rg.scanner.lines) && !rg.scanner.failed
 
 //@ func gtree.newRootGeneratorSimple
 //@   ensures fresh: fresh(result) && genOK(result) && result.scanner.pos == 0 && !result.scanner.failed && !result.nodeGenerator.parser.isSharpRoot && result.nodeGenerator.parser.spaces == 0 && result.nodeGenerator.parser.sep == ""
@@ -660,8 +660,11 @@ func specPreorderAll(roots []*Node, i int) []*Node {
 //@   ensures readerr [C14]: rg.scanner.failed ==> result1 != nil
 //@   ensures consumed [C02]: result1 == nil ==> rg.scanner.pos == len(rg.scanner.lines) && !rg.scanner.failed
 //@   ensures nilres [C12]: result1 != nil ==> len(result0) == 0 || rg.scanner.failed
+//@   ensures readerr2 [C14]: rg.scanner.failed ==> result1 == rg.scanner.err
+//@   ensures blankonly [C12,C15]: (forall j int :: {rg.scanner.lines[j]} 0 <= j && j < len(rg.scanner.lines) ==> md.allSpace(rg.scanner.lines[j])) ==> len(result0) == 0 && (result1 != nil ==> rg.scanner.failed) && (forall q *Node :: {q.children} q.children == old(q.children))
 //@ loop gtree.rootGeneratorSimple.generate#1
 //@   invariant ok: genOK(rg)
+//@   invariant blanks [C12]: (forall j int :: {rg.scanner.lines[j]} 0 <= j && j < rg.scanner.pos ==> md.allSpace(rg.scanner.lines[j])) ==> len(roots) == 0 && stack == nil && (forall q *Node :: {q.children} q.children == old(q.children))
 //@   invariant roots: forall k int :: {roots[k]} 0 <= k && k < len(roots) ==> roots[k] != nil && roots[k].hierarchy == 1
 //@   invariant open: stack != nil ==> chain(stack)
 //@   invariant closed [C02]: stack == nil ==> len(roots) == 0
@@ -713,14 +716,14 @@ func lemmaRawAllIsRenderAll(last, mid branchFormat, roots []*Node, i int) {
 
 //@ contract fromMarkdownOutput
 //@   modifies Node.children, Node.parent, Node.brnch.value, Node.brnch.path, list.List.view, list.Element.backOf, counter.n, bufio.Scanner.pos, bufio.Scanner.failed, markdown.Parser.isSharpRoot, markdown.Parser.spaces, markdown.Parser.sep, out, wfail, defaultSpreaderSimple.w
-//@   ensures render [C01,C03]: exists c *config :: {c.massive} fresh(c) && (!c.massive && c.encode == encodeDefault && !c.dryrun && result == nil ==> (old(wfail) || !wfail) && (c.noUseIterOfSimpleOutput ==> (exists rs []*Node :: allRoots(rs) && out[w] == old(out[w]) ++ specRenderAll(c.lastNodeFormat, c.intermedialNodeFormat, rs, len(rs)))))
+//@   ensures render [C01,C03,C12,C14]: exists c *config :: {c.massive} fresh(c) && (!c.massive && c.encode == encodeDefault && !c.dryrun && result == nil ==> (old(wfail) || !wfail) && (c.noUseIterOfSimpleOutput ==> (exists rs []*Node :: allRoots(rs) && out[w] == old(out[w]) ++ specRenderAll(c.lastNodeFormat, c.intermedialNodeFormat, rs, len(rs)))))
 //@ applies fromMarkdownOutput to gtree.OutputFromMarkdown, gtree.Output
 
 //@ contract fromMarkdownWalk
 //@   param callback follows walkCallback
 //@   requires live: !cbFailed
 //@   modifies Node.children, Node.parent, Node.brnch.value, Node.brnch.path, list.List.view, list.Element.backOf, counter.n, bufio.Scanner.pos, bufio.Scanner.failed, markdown.Parser.isSharpRoot, markdown.Parser.spaces, markdown.Parser.sep, cbTrace, cbFailed, cbLastErr
-//@   ensures walk [C05,C03]: exists c *config :: {c.massive} fresh(c) && (!c.massive ==> (result == nil ==> !cbFailed && (exists rs []*Node :: allRoots(rs) && cbTrace == old(cbTrace) ++ specPreorderAll(rs, len(rs)))) && (cbFailed ==> result == cbLastErr && result != nil))
+//@   ensures walk [C05,C03,C12]: exists c *config :: {c.massive} fresh(c) && (!c.massive ==> (result == nil ==> !cbFailed && (exists rs []*Node :: allRoots(rs) && cbTrace == old(cbTrace) ++ specPreorderAll(rs, len(rs)))) && (cbFailed ==> result == cbLastErr && result != nil))
 //@ applies fromMarkdownWalk to gtree.WalkFromMarkdown, gtree.Walk
 
 // ---------------------------------------------------------------------------------------------
